@@ -60,6 +60,11 @@ def run(P, tier="quick"):
             why = "no memset or fill loop for the new tail"
             for n in f.walk():
                 npos = f.cfg.pos_of(n)
+                if npos is None and n.k == "ForStmt":
+                    # a loop statement is no CFG element itself: it is where its condition (or initialiser) is
+                    for kid in (n.kids[2], n.kids[0]):
+                        if kid is not None and npos is None:
+                            npos = f.cfg.pos_of(kid) or next((f.cfg.pos_of(x) for x in kid.walk() if f.cfg.pos_of(x) is not None), None)
                 if npos is None or cpos is None:
                     continue
                 after = (npos[0] == cpos[0] and npos[1] > cpos[1]) or (npos[0] != cpos[0] and npos[0] in f.cfg.reachable_from(cpos[0]))
